@@ -739,8 +739,18 @@ func applySteps(n *hx.Node, sch schema, c Case) *srcState {
 				}
 				p := ci.prims[s.Rel%len(ci.prims)]
 				l := s.Link
-				if l.Mode == "self" && p.to != d.col {
-					l = Link{Mode: "doc", T: 0}
+				if l.Mode == "self" {
+					// a self reference needs a relation into the own collection: take the next such one
+					found := false
+					for off := 0; off < len(ci.prims); off++ {
+						if q := ci.prims[(s.Rel+off)%len(ci.prims)]; q.to == d.col {
+							p, found = q, true
+							break
+						}
+					}
+					if !found {
+						l = Link{Mode: "doc", T: 0}
+					}
 				}
 				fld = p.field
 				if l.Mode == "none" {
@@ -1377,6 +1387,36 @@ func run(c Case) (*hx.Failure, *info) {
 		return false
 	}
 
+	// leadsToCycle: following foreign keys from v one arrives at a document that lies on a cycle of
+	// at least two documents (a plain self reference is not a cycle in this sense).
+	leadsToCycle := func(v string) bool {
+		seen := map[string]bool{}
+		stack := []string{v}
+		for len(stack) > 0 {
+			x := stack[len(stack)-1]
+			stack = stack[:len(stack)-1]
+			if seen[x] {
+				continue
+			}
+			seen[x] = true
+			ci := colByName[colOfDoc[x]]
+			if ci == nil || !exported[ci.name] {
+				continue
+			}
+			for _, p := range ci.prims {
+				w := srcFK(ci.name, x, p.field)
+				if w == "" || w == x {
+					continue
+				}
+				if reaches(w, x) {
+					return true
+				}
+				stack = append(stack, w)
+			}
+		}
+		return false
+	}
+
 	lossyDoc := map[string]bool{}  // old ids of documents holding an Int that float64 cannot hold
 	taintedFK := map[string]bool{} // old id + "/" + field: foreign key explained by a diagnosed finding
 	anyTaint := false
@@ -1453,8 +1493,9 @@ func run(c Case) (*hx.Failure, *info) {
 				// diagnose
 				target := ef.byOld[v]
 				switch {
-				case v != fd.old && reaches(v, fd.old):
-					fs.add(sigCycle, "%s %s: %s_id -> %s lies on a reference cycle; file has %q, mapping promises %q", name, fd.old, p.field, v, got, want)
+				case v != fd.old && (reaches(v, fd.old) || leadsToCycle(v)):
+					// on a cycle, or upstream of one: the new id of v depends on ids that cannot be made consistent
+					fs.add(sigCycle, "%s %s: %s_id -> %s lies on, or leads to, a reference cycle of two or more documents; file has %q, mapping promises %q", name, fd.old, p.field, v, got, want)
 					taintedFK[fd.old+"/"+p.field] = true
 					anyTaint = true
 				case target != nil && v != fd.old && hasFK(v) && (fd.pos < target.pos || target.old == target.new):
@@ -1536,7 +1577,22 @@ func run(c Case) (*hx.Failure, *info) {
 					anyTaint = true
 					continue
 				}
-				fs.add("C18/target/doc-missing-under-docIDNew", "%s: file promises %s -> %s but the target has no such document (source row %s)", name, fd.old, fd.new, show(srow))
+				detail := "no document with the same key k either"
+				if ks, ok := num(srow["k"]); ok {
+					if other, ok := tgtByK[ks]; ok {
+						diffs := []string{}
+						for j, f := range ci.fields {
+							if !eqVal(ci.kinds[j], srow[f], other[f]) {
+								diffs = append(diffs, fmt.Sprintf("%s (%s): %s -> %s", f, sdlType(ci.kinds[j]), show(srow[f]), show(other[f])))
+							}
+						}
+						for _, p := range ci.prims {
+							diffs = append(diffs, fmt.Sprintf("%s_id: %s -> %s", p.field, show(srow[p.field+"_id"]), show(other[p.field+"_id"])))
+						}
+						detail = fmt.Sprintf("the document with the same key k is %v; differing fields / foreign keys: %s", other["_docID"], strings.Join(diffs, "; "))
+					}
+				}
+				fs.add("C18/target/doc-missing-under-docIDNew", "%s: file promises %s -> %s but the target has no such document (source row %s); %s", name, fd.old, fd.new, show(srow), detail)
 				continue
 			}
 			if !eqVal("int", srow["k"], trow["k"]) {
